@@ -206,6 +206,70 @@ def _san(s):
     return re.sub(r'[^A-Za-z0-9_.-]+', '_', s)
 
 
+def _child(fn, arg, conn):
+    try:
+        conn.send(fn(arg))
+    except BaseException:  # noqa
+        try:
+            conn.send('worker failed: ' + traceback.format_exc()[-1500:])
+        except Exception:  # noqa
+            pass
+    finally:
+        conn.close()
+
+
+def _run_tasks(items, jobs, limit):
+    """Run fn(arg) for every (fn, arg) in its own forked process, at most
+    ``jobs`` at a time.  A process that dies (stack overflow of the
+    interpreter on a pathological input, out of memory) or exceeds ``limit``
+    seconds gives a string instead of a result -- the check never hangs."""
+    ctx = multiprocessing.get_context('fork')
+    results = [None] * len(items)
+    pending = list(range(len(items)))
+    running = {}  # index -> (process, conn, start)
+    while pending or running:
+        while pending and len(running) < jobs:
+            i = pending.pop(0)
+            parent, child = ctx.Pipe(duplex=False)
+            pr = ctx.Process(target=_child, args=(items[i][0], items[i][1],
+                                                  child))
+            pr.start()
+            child.close()
+            running[i] = (pr, parent, time.time())
+        done = []
+        for i, (pr, conn, st) in running.items():
+            if conn.poll(0):
+                try:
+                    results[i] = conn.recv()
+                except EOFError:
+                    results[i] = f'worker died (exit code {pr.exitcode})'
+                done.append(i)
+            elif not pr.is_alive():
+                # may have exited right after sending
+                if conn.poll(0.2):
+                    try:
+                        results[i] = conn.recv()
+                    except EOFError:
+                        results[i] = ('worker died (exit code '
+                                      f'{pr.exitcode})')
+                else:
+                    results[i] = f'worker died (exit code {pr.exitcode})'
+                done.append(i)
+            elif time.time() - st > limit:
+                pr.kill()
+                results[i] = f'timeout after {limit} s'
+                done.append(i)
+        for i in done:
+            pr, conn, _ = running.pop(i)
+            pr.join(5)
+            if pr.is_alive():
+                pr.kill()
+            conn.close()
+        if not done:
+            time.sleep(0.02)
+    return results
+
+
 # ---------------------------------------------------------------------------
 # the per-property runner
 
@@ -221,14 +285,28 @@ def run_property(prop, modname, tier, level, title='', record_baseline=False):  
     packed = []
     native_res = []
     if tasks or natives:
-        ctx = multiprocessing.get_context('fork')
-        with ctx.Pool(min(jobs, max(1, len(tasks) + len(natives)))) as pool:
-            ar = pool.map_async(_run_contract, tasks, chunksize=1) \
-                if tasks else None
-            nr = pool.map_async(_run_native, natives, chunksize=1) \
-                if natives else None
-            packed = ar.get() if ar else []
-            native_res = nr.get() if nr else []
+        limit = int(os.environ.get(
+            'PYVC_TASK_TIMEOUT', '3600' if tier == 'thorough' else '600'))
+        res = _run_tasks([(_run_contract, t) for t in tasks] +
+                         [(_run_native, n) for n in natives], jobs, limit)
+        packed = res[:len(tasks)]
+        native_res = res[len(tasks):]
+        for i, r in enumerate(packed):
+            if isinstance(r, str):  # the worker died / ran out of time
+                rep = verify.FunctionReport(tasks[i][1], [])
+                if r.startswith('timeout'):
+                    rep.unsupported.append(r)
+                else:
+                    rep.crash = r
+                packed[i] = _pack(rep, None)
+        for i, r in enumerate(native_res):
+            if isinstance(r, str):
+                n = natives[i]
+                native_res[i] = {
+                    'name': n.name, 'functions': n.functions,
+                    'bound': n.bound, 'assumptions': n.assumptions,
+                    'exit': 'timeout' if r.startswith('timeout') else 'died',
+                    'result': None, 'seconds': 0.0, 'stderr_tail': r}
 
     base = baseline(prop)
     kfs = known_findings(prop)
